@@ -24,6 +24,7 @@ type FaultSet struct {
 	DialErr           bool // dial fails
 	DupAck            bool // packet processed, every response is sent twice
 	GoSilent          bool // from this packet on the broker never answers on this connection again (link stays up)
+	LateAck           bool // packet processed, every response arrives 6 s later (a very slow broker; the link stays up)
 	ForgetSession     bool // CONNECT only: the broker has lost the session (restart) and says so in CONNACK; otherwise served normally
 	WriteErrTransient bool // packet lost, write returns an error (e.g. a write deadline), link stays up
 	Stall             bool // from this packet on the peer stops reading: this and every later Write blocks until the client closes the transport (link stays up, nothing is answered)
@@ -54,6 +55,7 @@ func (f FaultSet) String() string {
 	add(f.WriteErrTransient, "write-error-link-stays-up")
 	add(f.Stall, "peer-stops-reading")
 	add(f.ForgetSession, "session-forgotten")
+	add(f.LateAck, "responses-6s-late")
 	s := "{" + strings.Join(on, ", ")
 	if f.OnlyTypes != nil {
 		var ts []string
@@ -90,9 +92,10 @@ const (
 	fWriteErrTransient
 	fStall
 	fForgetSession
+	fLateAck
 )
 
-var faultNames = [...]string{"deliver", "lost+close", "write-error", "ack-lost+close", "processed-silent", "dropped-silent", "connect-refused", "no-connack", "silent-from-here", "responses-duplicated", "write-error-link-stays-up", "peer-stops-reading", "session-forgotten"}
+var faultNames = [...]string{"deliver", "lost+close", "write-error", "ack-lost+close", "processed-silent", "dropped-silent", "connect-refused", "no-connack", "silent-from-here", "responses-duplicated", "write-error-link-stays-up", "peer-stops-reading", "session-forgotten", "responses-6s-late"}
 
 // ErrWriteTimeout is the transient write failure (the link stays usable).
 var ErrWriteTimeout = fmt.Errorf("env: write deadline exceeded (transient)")
@@ -109,13 +112,14 @@ type Delivery struct {
 
 // Broker is a model of one MQTT 3.1.1 server serving one client identifier.
 type Broker struct {
-	Net         *Net
-	Faults      FaultSet
-	KeepSession bool  // false: the server forgets the session between connections
-	MethodB     bool  // QoS 2 receiver method B (deliver on PUBLISH) instead of A (deliver on PUBREL)
-	PingDelay   int64 // PINGRESP is sent this many virtual ns after PINGREQ (0: at once)
-	GrantMax    *byte // SUBACK grants min(requested, *GrantMax); 0x80 = every subscription is refused (the table still records what was requested)
-	DialDelay   int64 // a failing dial takes this long (virtual ns) before it reports the failure
+	Net          *Net
+	Faults       FaultSet
+	KeepSession  bool  // false: the server forgets the session between connections
+	MethodB      bool  // QoS 2 receiver method B (deliver on PUBLISH) instead of A (deliver on PUBREL)
+	PingDelay    int64 // PINGRESP is sent this many virtual ns after PINGREQ (0: at once)
+	GrantMax     *byte // SUBACK grants min(requested, *GrantMax); 0x80 = every subscription is refused (the table still records what was requested)
+	RepeatPubRec bool  // on every reconnect with a kept session the broker repeats, right behind CONNACK, PUBREC for each QoS 2 PUBLISH it has received and not yet seen released (unsolicited from the client's point of view)
+	DialDelay    int64 // a failing dial takes this long (virtual ns) before it reports the failure
 
 	// session
 	hasSession bool
@@ -235,6 +239,9 @@ func (b *Broker) faultsFor(p *Packet) []int {
 	if f.DupAck && p.Type != CONNECT {
 		alts = append(alts, fDupAck)
 	}
+	if f.LateAck && p.Type != CONNECT {
+		alts = append(alts, fLateAck)
+	}
 	if f.WriteErrTransient && p.Type != CONNECT {
 		alts = append(alts, fWriteErrTransient)
 	}
@@ -350,6 +357,21 @@ func (b *Broker) OnData(c *Conn, data []byte) error {
 				})
 			}
 		}
+		if k == fLateAck {
+			late := append([]byte(nil), c.in[mark:]...)
+			c.in = c.in[:mark]
+			for i := nlog; i < len(b.Net.Trace); i++ {
+				if b.Net.Trace[i].Dir == '<' {
+					b.Net.Trace[i].Dir = '!'
+					b.Net.Trace[i].Note = "response held back for 6 s: " + b.Net.Trace[i].Pkt.String()
+				}
+			}
+			vrt.NewTimer(int64(6e9), 0, func(t *vrt.Timer) {
+				if !c.eof && !c.closed {
+					c.InjectFromTimer(t, late)
+				}
+			})
+		}
 		if k == fAckLost || k == fSilent {
 			// drop whatever was queued as response to this packet
 			c.in = c.in[:mark]
@@ -394,6 +416,19 @@ func (b *Broker) process(c *Conn, s *bconn, p *Packet) {
 			b.hasSession = true
 		}
 		c.Send(EncConnAck(sp, 0), "")
+		if b.RepeatPubRec && sp {
+			var ids []int
+			for id := range b.q2ids {
+				ids = append(ids, int(id))
+			}
+			for id := range b.q2store {
+				ids = append(ids, int(id))
+			}
+			sort.Ints(ids)
+			for _, id := range ids {
+				c.Send(EncAck(PUBREC, uint16(id)), "repeated PUBREC (unsolicited)")
+			}
+		}
 		if b.AfterConnAck != nil {
 			b.AfterConnAck(b, c)
 		}
